@@ -72,7 +72,7 @@ def gen_circuit(rng, g, wide):
 
 
 def measurements(rng, style, n, used, lab):
-    """-> (measurement processes, device or None, kind)   kind: 'full' (perm determined) | 'values'"""
+    """-> (measurement processes, device or None)"""
     allw = list(range(1, n + 1))
     L = lambda ws: [lab[w - 1] for w in ws]
     if style == "probs_all":
@@ -99,13 +99,12 @@ def measurements(rng, style, n, used, lab):
 STYLES = ["probs_all", "expval_each", "mixed", "device_nowires", "device_state", "probs_some"]
 
 
-def _mwires(mps, pos):
-    return [pos[w] for m in mps for w in m.wires]
-
-
 def run(tier, seed):
+    import time
+    t0 = time.time()
     rng = random.Random(1900 + seed)
     gs, gres = graphs(tier)
+    phase = {"graphgen": round(time.time() - t0, 1)}
     if tier == "quick":
         small = [g for g in gs if g["n"] <= 4]
         big = [g for g in gs if g["n"] == 5]
@@ -119,7 +118,6 @@ def run(tier, seed):
     nontrivial = set()
     for gi, g in enumerate(chosen):
         n = g["n"]
-        complete = len(g["edges"]) == n * (n - 1) // 2
         for k in range(per_graph):
             lab = rng.choice(LABELS)
             lab = list(range(n)) if lab is None else lab[:n]
@@ -214,6 +212,7 @@ def run(tier, seed):
                         req.append({"t": "expval", "pw": [3 if i + 1 == w else 0 for i in range(n)]})
                 vcases.append({"n": n, "ops": circ, "meas": req})
                 vmeta.append((replay, out, post, dev, outrecs, lab))
+    phase["apply"] = round(time.time() - t0 - phase["graphgen"], 1)
     # ---- negative controls
     n_real_traces = len(traces)
     neg_t, neg_e = [], []
@@ -248,6 +247,7 @@ def run(tier, seed):
     (wd / "traces.json").write_text(json.dumps(traces))
     r = lib.run_tlc("Trace_Transpile", lib.cfg(constants={"NTRACES": len(traces)}), wd, env={"TRACE_FILE": str(wd / "traces.json")})
     lib.require_ok(r, "Trace_Transpile")
+    phase["tlc_trace"] = round(r.wall_s, 1)
     tv = {t[1] - 1: t[2] for t in r.tuples if t[0] == "V"}
     if len(tv) != len(traces):
         raise lib.MachineryError(f"Trace_Transpile verdicts not total: {len(tv)} of {len(traces)}")
@@ -267,6 +267,7 @@ def run(tier, seed):
     nneg_t = sum(1 for i, _ in neg_t if tv[i] != "ok")
     # ---- TLC: exact unitaries up to the measurement permutation
     ev, _, est = rel.validate("C19", ecases, M)
+    phase["tlc_circuiteq"] = round(est["wall_s"], 1)
     samples = []
     for (ti, _), clause in ev.items():
         m = emeta[ti]
@@ -295,6 +296,7 @@ def run(tier, seed):
     neg_v = 0
     if vcases:
         vres, vst = tapeeval.evaluate("C19", vcases, M)
+        phase["tlc_tapeeval"] = round(vst["wall_s"], 1)
         for (replay, out, post, dev, outrecs, lab), c, res in zip(vmeta, vcases, vres):
             n = c["n"]
             pos = {l: i + 1 for i, l in enumerate(lab)}
@@ -340,9 +342,9 @@ def run(tier, seed):
                    "non-trivial = distinct (graph, circuit) for which transpile inserted at least one SWAP",
            "samples": samples, "exhaustive": False, "graphs_exhaustive": tier != "quick", "unitary_relations_decided": len(ecases) - n_neg_e_all,
            "measurement_values_compared": n_val, "documented_errors_confirmed": n_err_ok,
-           "negative_controls_rejected": nneg_t + nneg_e + neg_v, **stats}
+           "negative_controls_rejected": nneg_t + nneg_e + neg_v, "phase_wall_s": phase, **stats}
     return CheckResult(coverage=cov, violations=viol, assumptions=[
-        "angles are multiples of pi/2 (ring level M=3); graphs are exhaustive up to 5 nodes (thorough) / all of <= 4 nodes plus 70 sampled "
+        "angles are multiples of pi/2 (ring level M=4); graphs are exhaustive up to 5 nodes (thorough) / all of <= 4 nodes plus 70 sampled "
         "5-node graphs (quick); circuits are seeded samples",
         "calls whose measurements leave more than one wire of the permutation undetermined are decided on measurement values "
         "(exact expectation from TapeEval.tla, output evaluated numerically at 1e-8) instead of the unitary relation"])
